@@ -75,6 +75,13 @@ def judge_ctl(run, cases, rows):
                         "never learns that the resource is now %s" % (r[DD], c["id"], ev["spec"]["kind"], ev["spec"]["ns"], ev["spec"]["name"], ev["spec"].get("class_ann"),
                                                                      ev["spec"].get("class_field"), "its own" if ev["m"].get("cls") else "foreign"),
                         theorem="Arb.Cases.delivery_code")
+        wp = c.get("weight_probe") or {}
+        if wp.get("stored") or wp.get("events") or wp.get("writes"):
+            run.failing({"kind": "foreign-weight-update-stored"}, [c],
+                        "C16: with -weight-changes-dynamic-reload a weight-only update of a VirtualServer of another class, delivered to the real informer update handler after the history "
+                        "of case %d, %s; events %s, status writes %s" % (c["id"], "made this controller store it / claim its host" if wp.get("stored") else "was not stored",
+                                                                       json.dumps(wp.get("events")), json.dumps(wp.get("writes"))),
+                        theorem="harness arb (VerifCtl.WeightProbe)")
         if r[DL] != 0:
             ld = c.get("leader") or {}
             run.failing({"kind": "not-silent", "how": "status-write-on-foreign-object-at-leader-start"}, [c],
@@ -105,7 +112,8 @@ def check(run):
                         "every recorded Event and status write is checked not to name an object that is of a foreign class at that moment; every event is also offered to the real informer "
                         "handler of its kind (add/update/delete) and an update may be dropped only if it is identical to the last event about the object; at the end of the history the "
                         "real OnStartedLeading callback runs on the cluster (every object has an Event in the API, three Policies of own/foreign/named class exist) and its status "
-                        "writes must not name a foreign-class object")
+                        "writes must not name a foreign-class object; and a weight-only update of a foreign-class VirtualServer is delivered to the real update handler with "
+                        "-weight-changes-dynamic-reload on: it must not be stored, claim a host, or receive events / status writes")
     run.assumptions += [
                         "Policies are not arbitrated by Configuration; their class filter (getPolicies) is covered by C08"]
 
